@@ -27,6 +27,17 @@ CLAIMED = {
         ref="DESIGN.md §6 C14",
         technique="Lean 4 proof (Mathlib ℚ, zpow, half-even rounding uniqueness) + differential correspondence vs Fraction",
     ),
+    "C18": dict(
+        text="Lean 4 theorems over the namespace state machine (per-kind views + namespace + object name/parent + freeze) of Module and "
+        "Bundle: coherence is an invariant of every operation and hence of every finite sequence of setattr/add/get/getattr/delattr/"
+        "elaborate; refinement to a name->object map; rejections (reserved names, non-HDL values, deletion, post-elaboration additions, "
+        "second name for one object) leave the state unchanged; every natively answered name is reserved (table theorem over names "
+        "regenerated from /repo). Tied to the code by random operation sequences with the full observable state compared after every op.",
+        note="Model hand-written after module.py/bundle.py (_add, _assert_addable, add, __setattr__, get, __getattr__, __delattr__); "
+        "reserved/native name lists regenerated from /repo on every run. Alphabet excludes underscore names, Signal.vis mutation, m.name=str.",
+        ref="DESIGN.md §6 C18",
+        technique="Lean 4 proof (invariant by induction over operation sequences, refinement) + differential correspondence of op traces",
+    ),
 }
 NOT_YET = {}
 
